@@ -226,7 +226,7 @@ def gen(tier, rng):
                 add('boxed.fmt.odd', [od, kind], 'boxed.fmt')
     for p in [1, 2, 63, 64, 65, 127, 128, 129, 191, 192, 193, 255, 256, 257, 319, 320] + [rng.randrange(1, 321) for _ in range(10 * scale)]:
         add('glue.max_boxed', [p], 'glue.max_boxed')
-    add('glue.max_boxed', [0], 'glue.max_boxed')       # a request of 0 bits: left open by the spec entry (reported by C15r)
+    add('glue.max_boxed', [0], 'glue.max_boxed')       # a request of 0 bits: the one-limb maximum (finding F33, fixed)
     for r in ('boxed_num', 'boxed_zero_trait', 'boxed_default', 'wrapping_num_boxed', 'checked_default_boxed'):
         add('glue.zero.' + r, [1], 'glue.zero')
     for r in ('boxed_num', 'boxed_integer', 'wrapping_num_boxed'):
